@@ -1,12 +1,15 @@
 """C06 cases: bitwise logic, counts, bit manipulation."""
 from .common import *
+from . import widthsweep as _ws
+
+HARNESS_BINS_THOROUGH = ["widths"]
 from . import prim as _prim
 
 # the trusted leaf layer (Lean Prim.*) is validated against rustc's primitives in the same run
 HARNESS_BINS = ["c06", "prim"]
 
 
-def ROUTE(line):
+def _route_inner(line):
     return _prim.route(line, "c06")
 
 BIN = ["bitand", "bitor", "bitxor"]
@@ -70,6 +73,8 @@ def _gen_main(rng, tier):
 
 def gen(rng, tier):
     yield from _gen_main(rng, tier)
+    if tier == "thorough":
+        yield from _ws.count(rng)
     yield from _grid(rng, tier)
     yield from _huge(rng, tier)
     yield from _prim.bits(rng, tier)
@@ -90,3 +95,7 @@ def _huge(rng, tier):
             for s in "ui":
                 for op in UN:
                     yield f"{op} {s}{cfg} {hx(a)}", "huge"
+
+
+def ROUTE(line):
+    return _ws.route(line, None, _route_inner)
